@@ -395,10 +395,10 @@ func init() {
 	register(&Prop{
 		ID: "C06", Gen: genC06, Exec: execC06,
 		Nontrivial: func(p Plan, r Result) bool { return len(p.Progs) > 1 },
-		Rule:      "handler-level: 1-64 caller tasks, each with its own real batched.Handler on one real pool (relay, monitor, batcher, reader), run scripted sequences (every command kind, hit and miss variants, multi-key gets with duplicate keys and mixed quiet flags, gete) on private keys plus shared read-only keys; pool options drawn per run (batch size 1-16, batch delay 50 us-5 ms, monitor interval 1 s or off, read/write buffer 64 B-64 KiB). The kernel chooses among call starts, the pooled connection each submit goes to, individual backend requests, reply segments, dial completions and clock ticks (batch-delay expiry vs. full batch). Oracle: every call's outcome, data, flags, per-request attribution (opaque/key) equals the same caller's sequence run through the direct handler on an identically prepared second backend; no call may block for 3 simulated seconds with nothing else enabled. Non-trivial = more than one caller; distinct = distinct plan hash",
-		Real:      realPool,
-		Stub:      stubPool,
-		RunsQuick: 2500, RunsThorough: 60000, Chunk: 250,
+		Rule:       "handler-level: 1-64 caller tasks, each with its own real batched.Handler on one real pool (relay, monitor, batcher, reader), run scripted sequences (every command kind, hit and miss variants, multi-key gets with duplicate keys and mixed quiet flags, gete) on private keys plus shared read-only keys; pool options drawn per run (batch size 1-16, batch delay 50 us-5 ms, monitor interval 1 s or off, read/write buffer 64 B-64 KiB). The kernel chooses among call starts, the pooled connection each submit goes to, individual backend requests, reply segments, dial completions and clock ticks (batch-delay expiry vs. full batch). Oracle: every call's outcome, data, flags, per-request attribution (opaque/key) equals the same caller's sequence run through the direct handler on an identically prepared second backend; no call may block for 3 simulated seconds with nothing else enabled. Non-trivial = more than one caller; distinct = distinct plan hash",
+		Real:       realPool,
+		Stub:       stubPool,
+		RunsQuick:  2500, RunsThorough: 60000, Chunk: 250,
 	})
 }
 
